@@ -117,6 +117,22 @@ def run(tier, seed):
                     vals["lp"], vals["lr"], fmeasure(vals["lp"], vals["lr"], 1.0)]
             detail = {"ref": r["ref"], "est": r["est"], "unit_seconds": U, "kwargs": kw, "aligned_est": o["estA"]}
             total += 1
+            # stage by stage: every aligned level of the composition against util.adjust_intervals on that level
+            try:
+                t_end = max(float(x.max()) for x in ri)
+                bad_stage = None
+                for side, ivs_, labs_, tmax, want_levels in (("ref", ri, rl, None, o["refA"]), ("est", ei, el, t_end, o["estA"])):
+                    for li, (iv_, lb_) in enumerate(zip(ivs_, labs_)):
+                        gi, gl = me.util.adjust_intervals(iv_, labels=list(lb_), t_min=0.0, t_max=tmax)
+                        wl = want_levels[li]
+                        if [[int(round(a / U)), int(round(b / U))] for a, b in gi.tolist()] != [list(x) for x in wl["ivs"]] or list(gl) != list(wl["labs"]):
+                            bad_stage = ("Align(%s level %d)" % (side, li + 1), {"got": [gi.tolist(), list(gl)], "expected": wl})
+                if bad_stage:
+                    rep.violation("hierarchy.evaluate", "stage/aligned-level-differs", dict(detail, stage=bad_stage[0], **bad_stage[1]))
+                    continue
+            except Exception as ex:  # noqa
+                rep.violation("hierarchy.evaluate", "stage/raised-" + type(ex).__name__, dict(detail, message=str(ex)[:200]))
+                continue
             try:
                 d = h.evaluate(ri, rl, ei, el, **kw)
                 got = [float(x) for x in d.values()]
